@@ -136,8 +136,12 @@ class Keccak(object):
 
     # Duplex construction (see "Cryptographic Sponge Functions", http://sponge.noekeon.org)
     def duplex(self,m,bitlen=None,outlen=None):
+        saved = self.duplexing
         self.duplexing = True
-        L = [x for x in self.iterblocks(m,bitlen)]
+        try:
+            L = [x for x in self.iterblocks(m,bitlen)]
+        finally:
+            self.duplexing = saved
         assert len(L)==1
         if outlen is None: outlen=self.r
         if not hasattr(self,'_S'):
